@@ -10,6 +10,9 @@ of the matching kind -/
 structure GramOK (G : Gram) : Prop where
   lkind_lt : ∀ k lk, G.lkind k = some lk → k < G.top
   pre_not_ulk : ∀ p j, G.pre p = some j → G.ulk p = false
+  lkind_top : ∀ k, G.top ≤ k → G.lkind k = none
+  lkind_some : ∀ k, k < G.top → ∃ lk, G.lkind k = some lk
+  pre_kind : ∀ p j, G.pre p = some j → G.lkind j = some .prefix
   led_kind : ∀ o j kd, G.led o = some (j, kd) →
     (kd = .left → G.lkind j = some .left) ∧ (kd = .none → G.lkind j = some .none) ∧
     (kd = .typed → G.lkind j = some .typed) ∧ ((∃ c e, kd = .bracket c e) → G.lkind j = some .postfix) ∧
@@ -253,6 +256,23 @@ theorem gramOf_ok (levels : List Level) (ep : Bool) (syms : List String) : GramO
         cases hf : findLevel true "?" levels 0 with
         | none => rw [hf] at h; simp at h
         | some v => simp
+    · simp at h
+  · intro k hk
+    simp only [gramOf] at hk ⊢
+    simp [List.getElem?_eq_none hk]
+  · intro k hk
+    simp only [gramOf] at hk ⊢
+    exact ⟨levels[k].kind, by simp [List.getElem?_eq_getElem hk]⟩
+  · intro p j h
+    simp only [gramOf] at h
+    split at h
+    · rename_i s hs
+      simp only [Option.map_eq_some_iff] at h
+      obtain ⟨⟨j', lk⟩, hf, rfl⟩ := h
+      obtain ⟨-, L, hL, hk, hp⟩ := findLevel_spec true s levels 0 j' lk hf
+      simp only [gramOf, Nat.sub_zero] at hL ⊢
+      have : L.kind = .prefix := by simpa using hp
+      simp [hL, this]
     · simp at h
   · intro o j kd h
     simp only [gramOf] at h
